@@ -71,8 +71,13 @@ def phase(shard, r, x):
 
 
 def invariants(shard, r, vd, seen):
+    failed = set()
+    for y in getattr(r, "failed", []):
+        for m in (list(y) if isinstance(y, (tuple, list)) else [y]):
+            if not isinstance(m, tuple):
+                failed.add(m % 1000)
     for key, ref in r.refs.items():
-        if key in seen:
+        if key in seen or key[0] in failed:
             continue
         if ref.reached_zero():
             seen.add(key)
@@ -99,6 +104,21 @@ def body(shard, *choices):
     for key, ref in r.refs.items():
         if ref.went_negative():
             vd.add("negative-count/%s" % shard["template"])
+    # never for an element whose processing raised
+    for y in getattr(r, "failed", []):
+        members = list(y) if isinstance(y, (tuple, list)) else [y]
+        for m in members:
+            if isinstance(m, tuple):
+                continue
+            x = m % 1000
+            for key, ref in r.refs.items():
+                if key[0] == x and ref.reached_zero():
+                    who = "?"
+                    for ev in r.events:
+                        if ev[0] == "release" and ev[2] == key and ev[4] <= 0:
+                            who = ev[3]
+                            break
+                    vd.add("callback-for-failed-element@%s/%s" % (who, shard["template"]))
     return vd.result()
 
 
@@ -125,6 +145,11 @@ def templates(tier):
             out.append(dict(base, template="map_async", n=1, slow_sink=True))
             out.append(dict(base, template="buffer+direct", n=1))
             if awaiting:
+                for tname, kw in (("buffer", {"n": 1}), ("map_async", {"n": 1}), ("delay", {"timers": True}),
+                                  ("rate_limit", {"timers": True}), ("partition-timeout", {"n": 2, "timers": True}),
+                                  ("timed_window", {"timers": True}), ("direct", {})):
+                    out.append(dict(base, template=tname, fail=True, **kw))
+            if awaiting:
                 out.append(dict(base, template="zip", n=2, items=2))
                 out.append(dict(base, template="union", items=2))
                 out.append(dict(base, template="buffer+delay", n=1, timers=True))
@@ -144,6 +169,8 @@ def obligations(tier):
                                          "await" if sh["awaiting"] else "blind", steps)
         if sh.get("slow_sink"):
             nm += "/slow-sink"
+        if sh.get("fail"):
+            nm += "/failing-job"
         obls.append({"name": nm, "body": "body", "pre": "pre", "shard": sh,
                      "types": ["int"] * steps, "budget": 400 if q else 2400})
     return obls
